@@ -21,8 +21,32 @@ def budget(tier):
             "soft_seconds": 200 if tier == "quick" else 1800}
 
 
+def _search(seed):
+    from .. import search as S
+    return S.worldset_search(seed, "superset-before-subset", max_candidates=6000)
+
+
+def _search3(seed):
+    from .. import search as S
+    return S.three_layer_search(seed)
+
+
+def _layered():
+    from hypothesis import strategies as st
+
+    @st.composite
+    def go(draw):
+        atoms, conds = draw(gen.layered_base(3, 5, 7))
+        return gen.mk_case(atoms, conds, draw(gen.query_list(atoms, conds, 3, 5)))
+    return go()
+
+
 def strategy(tier):
-    return gen.strong_case(1, 4 if tier == "quick" else 5, 6)
+    from hypothesis import strategies as st
+    return st.one_of(gen.strong_case(1, 4 if tier == "quick" else 5, 6),
+                     gen.strong_case(1, 4 if tier == "quick" else 5, 6),
+                     gen.multiclause_case(5), _layered(),
+                     st.integers(0, 2**40).map(_search), st.integers(0, 2**40).map(_search3))
 
 
 def _strata(ctx, M, q, BA, e):
@@ -40,16 +64,30 @@ def _strata(ctx, M, q, BA, e):
 
 
 def run_case(case, ctx):
+    if case.get("searched"):
+        ctx.stratum(f"search:{case['searched']}")
+        ctx.extra["reference_only_candidates"] = ctx.extra.get("reference_only_candidates", 0) + case.get("tried", 0)
     return opsem.compare(ID, case, ctx, CFGS, strata_fn=_strata)
+
+
+
+def extra_cases(tier, shard, nshards, ctx):
+    if tier != "thorough":
+        return
+    yield from opsem.corpus484(shard, nshards, ctx)
 
 
 def shrink(case):
     for c in gen.shrink_candidates(case):
-        yield gen.renumber(c)
+        c = gen.renumber(c)
+        c.pop("searched", None)
+        c.pop("tried", None)
+        yield c
 
 
 describe = opsem.describe
 
 
 def required_strata(tier):
-    return ["expected=True", "expected=False", "W!=Z", "tie-at-top-layer", "incomparable-sets"]
+    return ["expected=True", "expected=False", "W!=Z", "tie-at-top-layer", "incomparable-sets",
+            "search:superset-before-subset", "search:three-layer-tie", "layers=3"]
